@@ -349,7 +349,7 @@ func init() {
 		},
 		CrashIsViolation: true,
 		Env: func(shard int) []string {
-			return []string{fmt.Sprintf("GORACE=halt_on_error=0 log_path=%s/C08.%d", c08RaceDir(), shard)}
+			return []string{fmt.Sprintf("GORACE=halt_on_error=0 exitcode=0 log_path=%s/C08.%d", c08RaceDir(), shard)}
 		},
 		Timeout: func(tier string) int {
 			if tier == "thorough" {
